@@ -46,10 +46,77 @@ def _callname(c):
     return '?'
 
 
-def normal_form(expr, params, assigns, depth=0):
+def _parents(fn):
+    par = {}
+    for n in ast.walk(fn):
+        for ch in ast.iter_child_nodes(n):
+            par[id(ch)] = n
+    return par
+
+
+def _truth_facts(test, truth, out):
+    """names whose truth value is certain when `test` evaluates to `truth`"""
+    if isinstance(test, ast.Name):
+        out[test.id] = truth
+    elif isinstance(test, ast.UnaryOp) and isinstance(test.op, ast.Not):
+        _truth_facts(test.operand, not truth, out)
+    elif isinstance(test, ast.BoolOp):
+        if (isinstance(test.op, ast.And) and truth) or (isinstance(test.op, ast.Or) and not truth):
+            for v in test.values:
+                _truth_facts(v, truth, out)
+
+
+def path_facts(fn, node, par):
+    """{name: bool} decided by the if-tests enclosing `node` inside fn; a name re-assigned ONCE, by a top-level statement of
+    fn that precedes the test, to an `or` (resp. `and`) of names passes its falsity (resp. truth) on to the operands
+    (`property = property or reify` ... `else:` => reify is false)."""
+    facts = {}
+    cur = node
+    while id(cur) in par and cur is not fn:
+        up = par[id(cur)]
+        if isinstance(up, ast.If):
+            if any(cur is st for st in up.body):
+                _truth_facts(up.test, True, facts)
+            elif any(cur is st for st in up.orelse):
+                _truth_facts(up.test, False, facts)
+        if isinstance(up, (ast.FunctionDef, ast.Lambda)) and up is not fn:
+            return {}                      # inside a closure: runs later, the tests say nothing
+        cur = up
+    assigned = {}
+    for n in ast.walk(fn):
+        if isinstance(n, (ast.Assign, ast.AugAssign, ast.AnnAssign, ast.For, ast.With, ast.NamedExpr)):
+            tgs = n.targets if isinstance(n, ast.Assign) else [getattr(n, 'target', None)]
+            for t in tgs:
+                for x in (ast.walk(t) if t is not None else []):
+                    if isinstance(x, ast.Name):
+                        assigned.setdefault(x.id, []).append(n)
+    for nm, truth in list(facts.items()):
+        ns = assigned.get(nm, [])
+        if not ns:
+            continue
+        n = ns[0]
+        ok = len(ns) == 1 and isinstance(n, ast.Assign) and len(n.targets) == 1 and isinstance(n.targets[0], ast.Name) \
+            and any(n is st for st in fn.body) and n.lineno < node.lineno and isinstance(n.value, ast.BoolOp) \
+            and all(isinstance(v, ast.Name) for v in n.value.values)
+        if not ok:
+            del facts[nm]                  # re-assigned in a way we do not follow: the test says nothing about the argument
+            continue
+        if (isinstance(n.value.op, ast.Or) and not truth) or (isinstance(n.value.op, ast.And) and truth):
+            for v in n.value.values:
+                if v.id == nm or not assigned.get(v.id):
+                    facts[v.id] = truth
+        elif nm in [v.id for v in n.value.values]:
+            del facts[nm]                  # `p = p or q` true says nothing about the original p
+    return facts
+
+
+def normal_form(expr, params, assigns, depth=0, key=None, facts=None):
     """-> ('arg', p) | ('norm', f, p) | ('const', repr) | ('other', src)"""
     src = ast.unparse(expr)
     if isinstance(expr, ast.Constant):
+        if isinstance(expr.value, bool) and key in params and facts and facts.get(key) is expr.value:
+            # the literal is the truth value of the argument the key is named after, on this path
+            return ('norm', 'path-truth', key)
         return ('const', repr(expr.value))
     if isinstance(expr, ast.Name):
         nm = expr.id
@@ -125,6 +192,7 @@ def extract(src_root):
                 inner_nodes.update(id(x) for x in ast.walk(f2))
             params = _params(fn)
             assigns = _assigns(fn)
+            sites_here = []
             for n in ast.walk(fn):
                 if id(n) in inner_nodes:
                     continue
@@ -144,39 +212,78 @@ def extract(src_root):
                             'discriminator': ast.unparse(call.args[1]), 'title': ast.unparse(call.args[2]),
                             'type_name': ast.unparse(call.args[3]), 'params': params, 'keys': [],
                             'updates': [], 'relates': [], 'line': n.lineno}
-                    # all uses of var inside fn (including closures such as register())
-                    for m in ast.walk(fn):
-                        if isinstance(m, ast.Assign) and len(m.targets) == 1 and isinstance(m.targets[0], ast.Subscript) \
-                                and isinstance(m.targets[0].value, ast.Name) and m.targets[0].value.id == var:
-                            k = m.targets[0].slice
+                    site['_node'] = n
+                    sites_here.append(site)
+            # attribute every store on a variable to the site that assigned the variable last before it
+            par = _parents(fn)
+
+            def owner_sites(m, var):
+                cands = [x for x in sites_here if x['var'] == var]
+                cur = m
+                while id(cur) in par:
+                    up = par[id(cur)]
+                    for field in ('body', 'orelse', 'finalbody'):
+                        blk = getattr(up, field, None)
+                        if isinstance(blk, list) and any(cur is st for st in blk):
+                            before = blk[:[i for i, st in enumerate(blk) if st is cur][0]]
+                            own = [x for x in cands if any(x['_node'] is st for st in before)]
+                            if own:
+                                return [own[-1]]
+                    if up is fn:
+                        break
+                    cur = up
+                return cands
+
+            def add_key(m, var, k, v):
+                for site in owner_sites(m, var):
+                    site['keys'].append({'key': k, 'src': ast.unparse(v),
+                                         'form': list(normal_form(v, params, assigns, key=k,
+                                                                  facts=path_facts(fn, m, par))),
+                                         'line': m.lineno})
+
+            vars_here = {x['var'] for x in sites_here}
+            for m in ast.walk(fn):
+                if isinstance(m, ast.Assign):
+                    for tg in m.targets:                      # chained targets: X['a'] = X['b'] = e
+                        if isinstance(tg, ast.Subscript) and isinstance(tg.value, ast.Name) and tg.value.id in vars_here:
+                            k = tg.slice
                             if isinstance(k, ast.Constant) and isinstance(k.value, str):
-                                site['keys'].append({'key': k.value, 'src': ast.unparse(m.value),
-                                                     'form': list(normal_form(m.value, params, assigns)),
-                                                     'line': m.lineno})
+                                add_key(m, tg.value.id, k.value, m.value)
                             else:
-                                problems.append('%s:%s: non-literal key on %s' % (rel, fn.name, var))
-                        elif isinstance(m, ast.Call) and isinstance(m.func, ast.Attribute) \
-                                and isinstance(m.func.value, ast.Name) and m.func.value.id == var:
-                            if m.func.attr == 'update':
-                                arg = m.args[0] if m.args else None
-                                pairs = None
-                                if isinstance(arg, ast.Call) and isinstance(arg.func, ast.Name) and arg.func.id == 'dict' \
-                                        and not arg.args and all(kw.arg for kw in arg.keywords):
-                                    pairs = [(kw.arg, kw.value) for kw in arg.keywords]
-                                elif isinstance(arg, ast.Dict) and all(isinstance(k, ast.Constant) and isinstance(k.value, str)
-                                                                       for k in arg.keys):
-                                    pairs = [(k.value, v) for k, v in zip(arg.keys, arg.values)]
-                                if pairs is None:
-                                    site['updates'].append(ast.unparse(arg) if arg is not None else ast.unparse(m))
-                                else:
-                                    for k, v in pairs:
-                                        site['keys'].append({'key': k, 'src': ast.unparse(v),
-                                                             'form': list(normal_form(v, params, assigns)),
-                                                             'line': m.lineno})
-                            elif m.func.attr in ('relate', 'unrelate'):
-                                site['relates'].append([m.func.attr, ast.unparse(m.args[0]), ast.unparse(m.args[1])])
-                    sites.append(site)
-    # several sites may share (func, var) when a variable is rebound (factories.py): keep them distinct by line
+                                problems.append('%s:%s: non-literal key on %s' % (rel, fn.name, tg.value.id))
+                elif isinstance(m, (ast.AugAssign, ast.Delete, ast.AnnAssign)):
+                    tgs = m.targets if isinstance(m, ast.Delete) else [m.target]
+                    for tg in tgs:
+                        if isinstance(tg, ast.Subscript) and isinstance(tg.value, ast.Name) and tg.value.id in vars_here:
+                            problems.append('%s:%s: %s changes a key of %s in a way the table does not follow'
+                                            % (rel, fn.name, type(m).__name__, tg.value.id))
+                elif isinstance(m, ast.Call) and isinstance(m.func, ast.Attribute) \
+                        and isinstance(m.func.value, ast.Name) and m.func.value.id in vars_here:
+                    var = m.func.value.id
+                    if m.func.attr == 'update':
+                        arg = m.args[0] if m.args else None
+                        pairs = None
+                        if isinstance(arg, ast.Call) and isinstance(arg.func, ast.Name) and arg.func.id == 'dict' \
+                                and not arg.args and all(kw.arg for kw in arg.keywords):
+                            pairs = [(kw.arg, kw.value) for kw in arg.keywords]
+                        elif isinstance(arg, ast.Dict) and all(isinstance(k, ast.Constant) and isinstance(k.value, str)
+                                                               for k in arg.keys):
+                            pairs = [(k.value, v) for k, v in zip(arg.keys, arg.values)]
+                        if pairs is None or m.keywords or len(m.args) != 1:
+                            for site in owner_sites(m, var):
+                                site['updates'].append(ast.unparse(arg) if arg is not None else ast.unparse(m))
+                        else:
+                            for k, v in pairs:
+                                add_key(m, var, k, v)
+                    elif m.func.attr in ('relate', 'unrelate'):
+                        for site in owner_sites(m, var):
+                            site['relates'].append([m.func.attr, ast.unparse(m.args[0]), ast.unparse(m.args[1])])
+                    elif m.func.attr in ('setdefault', 'pop', 'popitem', 'clear', '__setitem__', '__delitem__'):
+                        problems.append('%s:%s: %s.%s(..) changes the entry in a way the table does not follow'
+                                        % (rel, fn.name, var, m.func.attr))
+            for site in sites_here:
+                del site['_node']
+            sites += sites_here
     return sites, problems
 
 
